@@ -95,4 +95,33 @@ func init() {
 		Real:   nReal, Stubbed: nStub, Assume: nAssume,
 		WarnProbe: []string{"handle_ops"},
 	})
+
+	dStub := append([]string{"disk faults: VerifWrapWriter substitutes the writer below bufio (ENOSPC budget, EIO, short write), VerifFS fails open/WriteFile/close boundaries; process death = copy of the real directory at a file-system boundary", "DiskBlockSize and shard count drawn per run"}, nStub...)
+	defCheck(&checkDef{Prop: "C05", Level: "exploration",
+		Scens:  []scenBudget{{"backup", 12000, 500000}},
+		Rule:   nitroRule("1-4 phases of history, StoreToDisk of any open snapshot as a task while writers, snapshot churn, closers and GC continue (delta on/off, 1-33 shards, block size 16B-512KiB), then LoadFromDisk into a fresh instance with the same configuration (concurrency 1-8), exact comparison, independent re-parse of every file, delta accounting, structural walk, and 0-2 further phases on the restored instance against the reference set"),
+		Real:   nReal, Stubbed: dStub, Assume: nAssume,
+		WarnProbe: []string{"item_only_in_delta", "item_in_data_and_delta", "delta_records_written"},
+	})
+	defCheck(&checkDef{Prop: "C11", Level: "fault_enumeration",
+		Scens:  []scenBudget{{"damage", 48, 3000}},
+		Rule:   "one simulated run = one generated small database (0-6 keys, several epochs, delta on/off, 1-16 shards) stored fault-free, then EVERY single damage of the backup directory (each file removed; each file truncated at every length; each byte of each file altered in 5 ways) plus sampled multi-shard combinations is applied to a copy and LoadFromDisk (concurrency 1/2/8) runs as a simulator task; one evaluation = one damaged load; all evaluations are distinct (file, position, kind) and non-trivial (a fault was applied); oracle: terminates (scheduler hang verdict otherwise), no panic, error or exact",
+		Real:   nReal, Stubbed: dStub, Assume: []string{"single-fault space is complete per generated backup; backups and multi-fault combinations are sampled", "backups bounded to <= ~1 KiB"},
+		WarnProbe: []string{"multi_shard_damages", "damage_detected"},
+	})
+	defCheck(&checkDef{Prop: "C12", Level: "fault_enumeration",
+		Scens:  []scenBudget{{"wfault", 600, 30000}, {"crashimg", 1500, 60000}},
+		Rule:   "wfault: one run = one generated database stored fault-free (measuring bytes, write calls, open and close boundaries), then re-stored once per fault point: ENOSPC at every byte budget 0..total, EIO and short write at every write call, failing open/WriteFile and close at every boundary (complete when the space fits the per-plan budget, seeded sample otherwise); oracle: StoreToDisk nil => LoadFromDisk exact. crashimg: one run = one StoreToDisk with an image of the directory captured before EVERY file-system mutation (plus the synthesised created-but-empty state of each manifest); oracle per image: LoadFromDisk returns an error or exactly the stored snapshot, never hangs or panics. one evaluation = one fault point / crash image; all distinct and non-trivial by construction",
+		Real:   nReal, Stubbed: dStub, Assume: []string{"crash model is process death: completed system calls survive, user-space buffers are lost (nitro never fsyncs)"},
+		WarnProbe: []string{"store_error_reported", "fs_boundaries"},
+	})
+	defCheck(&checkDef{Prop: "C19", Level: "exploration",
+		Scens:  []scenBudget{{"codec", 20000, 600000}, {"backup", 6000, 200000}},
+		Rule:   "codec: one run = 1-12 items (lengths 1,2,255,256,65535,65536,70000,random; contents biased to look like prefixes/terminators) obtained from a Nitro instance, EncodeItem into a simulated stream (optional write error at a drawn byte), DecodeItem (version 0 and 1) from a reader delivering PRNG-sized chunks, zero-length reads and an optional read error; oracle: decoded == written then end-of-stream, reader checksum == writer checksum == independent XOR-of-CRC32; backup: every shard file written by StoreToDisk re-parsed by an independent reader and compared with checksums.json. The KVToBytes/KVFromBytes/CompareKV clause is a pure function of its input (no schedule or fault dimension): its generated cases are counted separately as pure_input_cases. non-trivial = every run (a stream was chunked); distinct = distinct trace hash",
+		Real:   []string{"nitro.EncodeItem/DecodeItem, rawFileWriter/rawFileReader through StoreToDisk/LoadFromDisk, KVToBytes/KVFromBytes/CompareKV"}, Stubbed: []string{"io.Writer/io.Reader below the codec (simulated stream with chunking and faults)"},
+		Assume: []string{"items <= 70000 bytes"},
+	})
+	c07 := checkDefs["C07"]
+	c07.Scens = append(c07.Scens, scenBudget{"backup", 5000, 150000})
+	c14.Scens = append(c14.Scens, scenBudget{"backup", 4000, 120000})
 }
